@@ -1,6 +1,6 @@
 """C05 - a failed evaluation leaves a consistent, retryable state (fault enumeration over probe points)."""
 from .base import PropBase, Violation
-from .. import faults
+from .. import faults, deep
 from . import c02
 
 
@@ -15,16 +15,25 @@ class C05(PropBase):
             "cleared model with exactly that fault; checked: raised FormulaError (or the original when disabled), "
             "get_error() is the injected object, dict(cells) of every cells equals the evaluator's held map, the retry "
             "returns the fault-free value and re-executes only what had not completed, nothing is left executing, sanity "
-            "checks pass; non-trivial = the fault escaped at depth >= 2 with at least one completed element; "
+            "checks pass; one run in eight instead drives recursive chains (self, mutual, through uncached cells, by attribute, "
+            "inside a comprehension) against a configured recursion limit: shorter chains must evaluate, longer ones raise the "
+            "depth error leaving nothing of the failing chain held, and later requests succeed once a prefix is held; "
+            "non-trivial = the fault escaped at depth >= 2 with at least one completed element (or a chain exceeded the limit); "
             "distinct = distinct event-log digest")
     tiers = {"quick": {"budget_s": 45, "timeout_s": 90}, "thorough": {"budget_s": 900, "timeout_s": 180}}
-    reach_probes = ["reach/fault_at_depth_ge2_with_completed_elements", "reach/retries_checked", "reach/failure_handled_by_formula"]
+    reach_probes = ["reach/fault_at_depth_ge2_with_completed_elements", "reach/retries_checked", "reach/failure_handled_by_formula",
+                    "reach/deep_over_limit", "reach/deep_below_limit"]
     assumptions = ["KeyboardInterrupt inside a formula is expected wrapped like any exception (statement: any exception)",
                    "the evaluator predicts which elements complete before the fault (validated fault-free by C01)"]
 
     def execute(self, ctx):
         if ctx.doc is None:
             ctx.cfg = faults.swarm(ctx.rng("cfg"), c02.swarm(ctx.rng("cfg0")))
+            ctx.cfg["deep"] = ctx.rng("deep?").random() < 0.12
+        if ctx.cfg.get("deep"):
+            # the recursion-limit part of the statement: chains against a configured limit
+            deep.run(ctx, "C05")
+            return
         faults.Scenario(ctx, "C05", check_state=True, check_tb=False).run()
 
 
